@@ -10,9 +10,9 @@ from props.c01_w5 import OPS5, gen_cases_w5, run_w5, check_w5, oracle_w5
 
 PROP = "C01"
 LEVEL = "proof"
-GEN_UNITS = ["GenUtils", "GenUtils2", "GenKernels", "GenMethods"]     # C01_gather_wrap_dims_generated / C01_sparse_index_generated / C01_khatrirao_generated are stated over generated functions
-COQ_TARGETS = ["Props/C01.vo", "Props/C01w5.vo", "Model/C01Harness.vo", "Model/C01W5H.vo", "Model/Harness.vo"]
-THEOREM_FILES = ["Props/C01.v", "Props/C01w5.v"]
+GEN_UNITS = ["GenUtils", "GenUtils2", "GenKernels", "GenMethods", "GenUtils3b", "GenTenmat7", "GenSptenmat7"]     # C01_gather_wrap_dims_generated / C01_sparse_index_generated / C01_khatrirao_generated are stated over generated functions
+COQ_TARGETS = ["Props/C01.vo", "Props/C01w5.vo", "Props/C01W8.vo", "Model/C01Harness.vo", "Model/C01W5H.vo", "Model/Harness.vo"]
+THEOREM_FILES = ["Props/C01.v", "Props/C01w5.v", "Props/C01W8.v"]
 COQ_IMPORTS = ("From Coq Require Import List ZArith Bool.\n"
                "From PV Require Import Base.Index Base.Perm Np.Array Model.Sparse Model.Repr Model.Harness Model.C07Ops Model.C07Harness "
                "Model.C01Conv Model.C01Unique Model.C01Coo Model.C01W3 Model.C01W4 Model.C01Harness Model.C01W5 Model.C01W5Sum Model.C01W5H.\n")
